@@ -109,8 +109,9 @@ def gen_png(rng, tok=None, with_colorspace=None, special_before_plain=False, c2p
         mid = specials + mid
     else:
         mid = mid + specials
+    used = {x[0] for x in pre + mid}
     for n in ANYWHERE + [b"eXIf"]:
-        if rng.random() < 0.25:
+        if rng.random() < 0.25 and not (n in (b"tIME", b"eXIf") and n in used):
             post.append((n, payload(rng, n, ct, depth, npal)))
     if c2pa is not None:
         (pre if rng.random() < 0.5 else post).append((b"caBX", c2pa_box(rng, real=c2pa)))
